@@ -46,6 +46,15 @@ func RunTamper(s *kernel.Sim, prof *Profile) *Env {
 		e.tracef("%s -> %s", op, res)
 		e.Ops++
 	}
+	// the audit log file is secret-bearing too (names): owner-only at creation
+	if aw, err := audit.NewFile(filepath.Join(e.Dir, "audit.log")); err == nil {
+		aw.WriteEntries(&audit.Entry{Action: "get", Secret: e.Names[0]})
+		aw.Close()
+		if fi, err := os.Stat(filepath.Join(e.Dir, "audit.log")); err == nil && fi.Mode().Perm()&0o077 != 0 {
+			e.fail("tamper", "audit log file created with mode %v (must be owner-only)", fi.Mode().Perm())
+		}
+		os.Remove(filepath.Join(e.Dir, "audit.log"))
+	}
 	want := e.Model.DumpVisible()
 	orig := e.ReadFile()
 	if got, err := e.Observe(); err != nil || got != want {
